@@ -169,7 +169,9 @@ theorem abs_upd (s s' : St) (hf : Frame s s') (k : Nat) (v : KSt) (n : Nat)
 /-! ## creating records -/
 
 theorem key_newRec (s : St) (k g k' : Nat) :
-    (newRec s k g).key k' = if k' = k then some { id := s.nrec, gen := g, data := s.ctors k + 1 } else s.key k' := by
+    (newRec s k g).key k' =
+      if k' = k then some { id := s.nrec, gen := g, data := s.ctors k + 1, hasFn := !s.nilNext.contains k }
+      else s.key k' := by
   simp [St.key, newRec, look_put]
 
 theorem ctors_newRec (s : St) (k g k' : Nat) :
@@ -181,7 +183,8 @@ theorem frame_newRec (s : St) (k g : Nat) : Frame s (newRec s k g) := ⟨rfl, rf
 
 theorem key_createKey (s : St) (k k' : Nat) :
     (createKey s k).key k' =
-      if k' = k then some { id := s.nrec, gen := s.gens.length, data := s.ctors k + 1 } else s.key k' := by
+      if k' = k then some { id := s.nrec, gen := s.gens.length, data := s.ctors k + 1, hasFn := !s.nilNext.contains k }
+      else s.key k' := by
   simp only [createKey, key_newRec]; rfl
 
 theorem ctors_createKey (s : St) (k k' : Nat) :
